@@ -393,6 +393,57 @@ theorem C08_fullbase_native_fee_below_two_blocks (n : Nat) (s : BF.State) (hm : 
       (BF.fcCreateMsg sender funds msg) (BF.fc_factory n s) hn h2 hW
   · exact hs'
 
+def BF.isCreate : BF.Op → Bool
+  | .create .. => true
+  | _ => false
+
+theorem BF.not_create_of {op : BF.Op} (h : BF.isCreate op = false) : ∀ a f m w, op ≠ .create a f m w := by
+  intro a f m w e; subst e; simp [BF.isCreate] at h
+
+theorem BF.create_of {op : BF.Op} (h : BF.isCreate op = true) : ∃ a f m w, op = .create a f m w := by
+  cases op <;> simp [BF.isCreate] at h
+  exact ⟨_, _, _, _, rfl⟩
+
+/-- **provenance, over all composite histories** ("a factory creates a minter ONLY IF …"): a minter that exists after any history
+from a minter-less state was made by a `CreateMinter` of that history which was ACCEPTED in the state reached by the operations
+before it (so `C08_fullbase_create_only_if` / `_create_ok_iff` apply to THAT state: not frozen then, code allow-listed then, fee
+attached); its address, captured price (the factory minimum of THAT moment) and wasm admin (the sender of THAT message) are still
+the ones of that creation, whatever governance and everybody else did afterwards -/
+theorem C08_fullbase_history_provenance (s0 : BF.State) (h0 : s0.minter = none) (ops : List BF.Op) (m : BF.Minter)
+    (hm : (BF.run s0 ops).minter = some m) :
+    ∃ pre post a f msg w s1, ops = pre ++ BF.Op.create a f msg w :: post ∧ (BF.run s0 pre).minter = none ∧
+      BF.step (BF.run s0 pre) (.create a f msg w) = .ok s1 ∧ m.addr = w.minterAddr ∧ m.sg721 = w.collAddr ∧
+      m.mintPrice = (BF.run s0 pre).params.minMintPrice ∧ m.wasmAdmin = a ∧ msg.creator = some m.collAdmin := by
+  induction ops generalizing s0 with
+  | nil => rw [show BF.run s0 [] = s0 from rfl, h0] at hm; cases hm
+  | cons op ops ih =>
+    rw [BF.run_cons] at hm
+    cases hm1 : (BF.step' s0 op).minter with
+    | none =>
+      obtain ⟨pre, post, a, f, msg, w, s1, hops, hnone, hstep, h1, h2, h3, h4, h5⟩ := ih (BF.step' s0 op) hm1 hm
+      exact ⟨op :: pre, post, a, f, msg, w, s1, by rw [hops]; rfl, by rw [BF.run_cons]; exact hnone,
+        by rw [BF.run_cons]; exact hstep, h1, h2, by rw [BF.run_cons]; exact h3, h4, h5⟩
+    | some m1 =>
+      have hcr : ∃ a f msg w, op = .create a f msg w := by
+        cases hic : BF.isCreate op with
+        | true => exact BF.create_of hic
+        | false =>
+          exfalso
+          have := C08_fullbase_only_create_creates s0 h0 op (BF.not_create_of hic)
+          rw [hm1] at this; cases this
+      obtain ⟨a, f, msg, w, rfl⟩ := hcr
+      rcases BF.step'_cases s0 (.create a f msg w) with ⟨s1, hok, hs1⟩ | ⟨_, hs1⟩
+      · obtain ⟨mc, creator, hmc, hcrt, e1, e2, _, _, _, e8, e9, _, _, _, _, e14, _⟩ :=
+          C08_fullbase_post_wiring s0 s1 a f msg w hok
+        rw [hs1] at hm1 hm
+        rw [hmc] at hm1; cases hm1
+        obtain ⟨m', hm', hid⟩ := BF.minter_frame_run s1 m1 hmc ops
+        rw [hm] at hm'; cases hm'
+        obtain ⟨_, i2, _, _, i5, i6, _, _, _, i10, i11⟩ := hid
+        exact ⟨[], ops, a, f, msg, w, s1, rfl, h0, hok, by rw [i2, e1], by rw [i6, e2], by rw [i5, e14]; rfl,
+          by rw [i10, e8], by rw [hcrt, i11, e9]⟩
+      · rw [hs1, h0] at hm1; cases hm1
+
 /-! ## Non-vacuity: the hypotheses of `C08_fullbase_refines_create` hold in a concrete composite state, and the projected
 aspect world accepts the same `CreateMinter` (kernel-evaluated) -/
 
